@@ -249,8 +249,8 @@ var tblSenderProcess = &tableSpec{
 		{`util\.UnmarshalChain\([^()]*\)`, "decode"},
 		{`param:w\.plugins\[[^\]]*\]`, "plugin"},
 		{`^Plugin\.Enqueue\(.*\)$`, "accepted"},
-		{`^\((?:var:err|err\([a-zA-Z.]*[eE]ncode[A-Za-z]*\(.*\)\)) == nil\)$`, "(encode == nil)"},
-		{`^\(err\(json\.Marshal\(.*\)\) == nil\)$`, "(encode == nil)"},
+		// whatever produced the body (inline json.Marshal, or a helper of any name): its error
+		{`^\((?:var:err|err\(.*\)) == nil\)$`, "(encode == nil)"},
 	},
 	Why: "C19: an undecodable or null receiver, an unresolvable address, a receiver type without a plugin, an unencodable body and a full plugin queue each complete the hand-off with an error (retried); only otherwise is the message handed to the plugin",
 	Spec: func(v *valuation) string {
